@@ -199,3 +199,21 @@ __CPROVER_requires(TerminateFlag != InterruptedFlag && TerminateFlag < 1000 && I
 __CPROVER_assigns()                                                                                                       /*@ob C11.blocking-test-changes-nothing */
 __CPROVER_ensures(__CPROVER_return_value == (has_blocking && (g_flag_terminate || (g_flag_interrupted && !g_flag_end_interrupt))))   /*@ob C11.blocked-iff-terminated-or-interrupted-without-end-event */
 ;
+
+/* ---- handle_eventless_transitions_helper::process_completion_event (machines that have completion rows): the completion event is issued
+   iff the step took a transition, as a direct call carrying the source flags of the step (C10) ---- */
+#if UNIT_PCE
+extern int g_ccalls2; extern const EventSource g_src2;
+typedef struct { fsm_t* self; _Bool handled; } eventless_helper_t;
+HandledEnum pei_completion(fsm_t* self, EventSource source)         /* self->process_event_internal(first_completion_event(), source | EVENT_SOURCE_DIRECT) */
+__CPROVER_requires(g_ccalls2 == 0)                                                /*@ob C10.completion-event-issued-at-most-once-per-step */
+__CPROVER_requires(source == (EventSource)(g_src2 | EVENT_SOURCE_DIRECT))         /*@ob C10.completion-event-is-a-direct-call-never-reported-through-no-transition */
+__CPROVER_assigns(g_ccalls2)
+__CPROVER_ensures(g_ccalls2 == 1)
+;
+void pce_unit(eventless_helper_t* h, EventSource source)
+__CPROVER_requires(__CPROVER_is_fresh(h, sizeof(*h)) && source == g_src2 && g_ccalls2 == 0)
+__CPROVER_assigns(g_ccalls2)
+__CPROVER_ensures(g_ccalls2 == (h->handled ? 1 : 0))                                                     /*@ob C10.completion-event-only-after-a-taken-transition */
+;
+#endif
